@@ -188,6 +188,8 @@ Real prof_max();
 
 // bound on the number of decisions on one path (PathCut beyond it)
 void set_max_decisions(int n);
+// put every new term into polynomial normal form (sum of monomials), so that exact cancellations fold to constants
+void set_normalize(bool on);
 // per-query wall cap in seconds for solver processes
 void set_query_cap(double first, double portfolio);
 
